@@ -16,7 +16,7 @@ THEOREMS = [
     "Gozod.C07.runHistory_get", "Gozod.C07.c07_history_equiv", "Gozod.C07.c07_history_sound", "Gozod.C07.c07_history_complete",
     "Gozod.C07.c07_history_stable",
     "Gozod.C07.witness_bytes_vs_codepoints", "Gozod.C07.witness_trim_before_min", "Gozod.C07.witness_optional_null",
-    "Gozod.C07.witness_partial_required", "Gozod.C07.witness_array_single_item", "Gozod.C07.witness_rest_without_min_items",
+    "Gozod.C07.witness_array_single_item", "Gozod.C07.witness_rest_without_min_items",
     "Gozod.C07.witness_array_length_keyword", "Gozod.C07.witness_record_enum_exhaustive", "Gozod.C07.witness_union_nil",
     "Gozod.C07.witness_num_bound_merge", "Gozod.C07.witness_length_overwrites", "Gozod.C07.witness_size_overwrites",
     "Gozod.C07.witness_int_kind_range", "Gozod.C07.witness_strict_catchall", "Gozod.C07.witness_nested_strip",
@@ -24,12 +24,21 @@ THEOREMS = [
     # Lazy on top of the base fragment (Model/JsonSchemaLazy.lean)
     "Gozod.C07.eqvX", "Gozod.C07.presX", "Gozod.C07.c07_lazy_equiv_partial", "Gozod.C07.c07_lazy_sound", "Gozod.C07.c07_lazy_complete",
     "Gozod.C07.c07_lazy_wellformed", "Gozod.C07.witness_lazy_typed_inner_unvalidated", "Gozod.C07.witness_lazy_null", "Gozod.C07.c07_lazy_full_false",
+    # objects with a Partial / Required call history; the converter before the fix C07-object-optionality
+    "Gozod.C07.eqvShapeG", "Gozod.C07.objF_equiv", "Gozod.C07.objF_sound_strip", "Gozod.C07.objF_complete_strip",
+    "Gozod.C07.c07_x_sound", "Gozod.C07.c07_x_complete",
+    "Gozod.C07.fieldOpt_no_calls", "Gozod.C07.fieldOpt_required_all", "Gozod.C07.fieldOpt_required_keys", "Gozod.C07.fieldOpt_required_keys_frame",
+    "Gozod.C07.fieldOpt_partial_all", "Gozod.C07.fieldOpt_partial_keys",
+    "Gozod.C07.legacy_same_doc", "Gozod.C07.c07_legacy_sound", "Gozod.C07.c07_legacy_complete",
+    "Gozod.C07.witness_partial_required", "Gozod.C07.witness_required_keeps_optional", "Gozod.C07.witness_partial_keys",
     # over the tables regenerated from jsonschema/to.go + core/constants.go (Gen/ToJsonCases.lean)
     "Gozod.C07.c07_codes_covered", "Gozod.C07.c07_cases_partition", "Gozod.C07.c07_modelled_branches", "Gozod.C07.c07_tail_is_applyBag",
     "Gozod.C07.c07_unmodelled_gap", "Gozod.C07.c07_unmodelled_rest", "Gozod.C07.c07_default_unrepresentable",
     "Gozod.C07.c07_range_defaults_int", "Gozod.C07.c07_range_defaults_flt", "Gozod.C07.c07_range_defaults_depth", "Gozod.C07.c07_range_defaults_domain",
     "Gozod.C07.c07_bag_keywords", "Gozod.C07.c07_bag_model_instances", "Gozod.C07.c07_bag_renamed", "Gozod.C07.c07_option_tests", "Gozod.C07.c07_composite_types",
 ]
+
+CASES_THEOREMS = THEOREMS[THEOREMS.index("Gozod.C07.c07_codes_covered"):]
 
 def verdict_ok(impl):
     """the property evaluated on the implementation's observation alone"""
@@ -141,7 +150,7 @@ def run(res):
         terr = translate(res)
         if terr:
             C.tie_broken(res, "translator C07 (jsonschema/to.go -> Gen/ToJsonCases.lean)", terr)
-            ok, detail = C.prove(res, MODULES[:2], THEOREMS[:39])   # Proofs/C07.lean + C07Lazy.lean
+            ok, detail = C.prove(res, MODULES[:2], [t for t in THEOREMS if t not in CASES_THEOREMS])   # Proofs/C07.lean + C07Lazy.lean
         else:
             ok, detail = C.prove(res, MODULES, THEOREMS)
     if not ok:
